@@ -13,14 +13,21 @@ def markerOf (env : Env) (tx : Tx) : CoinID := { txhash := env.fdp tx.hash, inde
 theorem C19_mainnet (env : Env) (s s' : State) (txs : List Tx) (fb : Header) (hnet : s.network = .mainnet)
     (h : applyBatch env s txs fb = .ok s') (tx : Tx) (htx : tx ∈ txs) (hk : tx.kind = .faucet) :
     env.isGrandfathered tx.hash = true := by
-  sorry
+  obtain ⟨rel, ns, next, _, _, _, hc, _⟩ := applyBatch_ok h
+  rw [createNextState_eq] at hc
+  obtain ⟨l₁, l₂, rfl⟩ := List.append_of_mem htx
+  obtain ⟨mid, mid', h1, h2, _⟩ := cnsFold_split hc
+  exact (cnsStep_faucet h2 hk).1 ((cnsFold_network h1).trans hnet)
 
 /-- a faucet transaction whose marker is already in the coin set makes the batch fail -/
 theorem C19_duplicate_rejected (env : Env) (s : State) (txs : List Tx) (fb : Header) (tx : Tx) (htx : tx ∈ txs)
     (hk : tx.kind = .faucet) (hm : (s.coins.getCoin (markerOf env tx)).isSome)
     (hsep : ∀ t ∈ txs, markerOf env tx ∉ t.inputs) :
     ∀ s', applyBatch env s txs fb ≠ .ok s' := by
-  sorry
+  intro s' h
+  obtain ⟨rel, ns, next, _, _, _, hc, _⟩ := applyBatch_ok h
+  rw [createNextState_eq] at hc
+  exact cnsFold_dup htx hk hsep (cnsCoins1_present hm) hc
 
 /-- … and when that is the batch's only defect (the single-transaction case) the error is `DuplicateTx` -/
 theorem C19_duplicate_error (env : Env) (s : State) (tx : Tx) (fb : Header)
@@ -28,21 +35,53 @@ theorem C19_duplicate_error (env : Env) (s : State) (tx : Tx) (fb : Header)
     (hnet : s.network ≠ .mainnet ∨ env.isGrandfathered tx.hash = true)
     (hwf : tx.isWellFormed = true ∧ tx.melTotalFits = true) (hin : tx.inputs = []) :
     applyBatch env s [tx] fb = .reject .duplicateTx := by
-  sorry
+  have hst : ∀ rel, createNextState env s [tx] rel s.tip906 = .reject .duplicateTx := by
+    intro rel
+    have hf : handleFaucetTx env { s with coins := cnsCoins1 s [tx] rel s.tip906 } tx
+        = .reject .duplicateTx := by
+      have hp : ((cnsCoins1 s [tx] rel s.tip906).getCoin
+          { txhash := env.fdp tx.hash, index := 0 }).isSome := cnsCoins1_present hm
+      unfold handleFaucetTx
+      simp only
+      rw [if_neg, if_pos hp]
+      rcases hnet with hn | hg
+      · simp [hn]
+      · simp [hg]
+    rw [createNextState_eq]
+    simp only [Outcome.foldlM', cnsStep, if_pos hk, hf, Outcome.bind]
+  have h1 : ∃ rel, loadRelevantCoins s [tx] = .ok rel := by
+    simp [loadRelevantCoins, hwf.1, hwf.2, hin, Outcome.foldlM', Outcome.bind]
+  obtain ⟨rel, h1⟩ := h1
+  have h2 : loadStakeInfo s [tx] = .ok [] := by
+    simp [loadStakeInfo, Outcome.foldlM', hk]
+  have h3 : ∀ ns, checkTxValidity env s (lastHeaderOf s fb) tx rel ns = .ok () := by
+    intro ns
+    simp [checkTxValidity, hin, Outcome.foldlM', Outcome.bind, checkBalanced, hk]
+  unfold applyBatch
+  simp [h1, h2, h3, hst, Outcome.bind, Outcome.forM', Outcome.foldlM', hk]
 
 /-- the same faucet transaction twice in one batch is rejected -/
 theorem C19_same_batch (env : Env) (s : State) (txs : List Tx) (fb : Header) (tx : Tx)
     (hk : tx.kind = .faucet) (hng : env.isGrandfathered tx.hash = false) (htwice : (txs.filter (· = tx)).length ≥ 2)
     (hsep : ∀ t ∈ txs, markerOf env tx ∉ t.inputs) :
     ∀ s', applyBatch env s txs fb ≠ .ok s' := by
-  sorry
+  intro s' h
+  obtain ⟨rel, ns, next, _, _, _, hc, _⟩ := applyBatch_ok h
+  rw [createNextState_eq] at hc
+  obtain ⟨l₁, l₂, rfl, hm2⟩ := twice_split htwice
+  obtain ⟨mid, mid', _, h2, h3⟩ := cnsFold_split hc
+  have hp := (cnsStep_faucet h2 hk).2.2 hng (hsep tx (by simp))
+  exact cnsFold_dup hm2 hk (fun t ht => hsep t (by simp [ht])) hp h3
 
 /-- an accepted (non-grandfathered) faucet transaction leaves its marker in the coin set -/
 theorem C19_marker_inserted (env : Env) (s s' : State) (txs : List Tx) (fb : Header)
     (h : applyBatch env s txs fb = .ok s') (tx : Tx) (htx : tx ∈ txs) (hk : tx.kind = .faucet)
     (hng : env.isGrandfathered tx.hash = false) (hsep : ∀ t ∈ txs, markerOf env tx ∉ t.inputs) :
     (s'.coins.getCoin (markerOf env tx)).isSome := by
-  sorry
+  obtain ⟨rel, ns, next, _, _, _, hc, hco⟩ := applyBatch_ok h
+  rw [createNextState_eq] at hc
+  rw [hco]
+  exact cnsFold_marker hc htx hk hng hsep
 
 /-- a marker can never be spent: spending it would need a covenant hashing to the zero address -/
 theorem C19_marker_unspendable (env : Env) (s s' : State) (txs : List Tx) (fb : Header)
@@ -50,13 +89,37 @@ theorem C19_marker_unspendable (env : Env) (s s' : State) (txs : List Tx) (fb : 
     (hm : s.coins.getCoin m = some c) (hz : c.coinData.covhash = zeroHash)
     (hnz : ∀ t ∈ txs, zeroHash ∉ t.covHashes) (hnew : ∀ t ∈ txs, m.txhash ≠ t.hash) :
     s'.coins.getCoin m = some c := by
-  sorry
+  obtain ⟨rel, ns, next, hrel, _, hv, hc, hco⟩ := applyBatch_ok h
+  rw [createNextState_eq] at hc
+  have hnotin : ∀ t ∈ txs, m ∉ t.inputs := by
+    intro t ht hmi
+    obtain ⟨coin, hcoin, hcov⟩ := checkTxValidity_input (Outcome.forM'_ok hv t ht) hmi
+    rcases loadRelevantCoins_get hrel hcoin with ⟨t', ht', heq⟩ | hs
+    · exact hnew t' ht' heq
+    · rw [hm] at hs
+      cases hs
+      exact hcov (by rw [hz]; exact findCovenant_none (hnz t ht))
+  have h0 : (cnsCoins1 s txs rel s.tip906).getCoin m = some c := by
+    rw [cnsCoins1_other hnew]; exact hm
+  have hp : ((cnsCoins1 s txs rel s.tip906).getCoin m).isSome := by rw [h0]; rfl
+  rw [hco, cnsFold_keep hc hnotin hp]
+  exact h0
 
 /-- known finding (K3/F11): the grandfathered transaction gets no marker, so nothing stops a replay:
     the faucet step leaves the state untouched for it -/
 theorem C19_grandfathered_no_marker (env : Env) (s : State) (tx : Tx)
     (hg : env.isGrandfathered tx.hash = true) (hm : s.coins.getCoin (markerOf env tx) = none) :
     handleFaucetTx env s tx = .ok s := by
-  sorry
+  unfold handleFaucetTx
+  have hm' : s.coins.getCoin { txhash := env.fdp tx.hash, index := 0 } = none := hm
+  simp [hg, hm']
 
 end Mel
+
+#print axioms Mel.C19_mainnet
+#print axioms Mel.C19_duplicate_rejected
+#print axioms Mel.C19_duplicate_error
+#print axioms Mel.C19_same_batch
+#print axioms Mel.C19_marker_inserted
+#print axioms Mel.C19_marker_unspendable
+#print axioms Mel.C19_grandfathered_no_marker
